@@ -141,3 +141,114 @@ func readCropped(l *mc.Local, s spec, page *grid, left, top, w, h int, tryHarder
 	}
 	return o
 }
+
+// Reader-object histories: the 2-D readers (and every 1-D reader) must give for an image what a
+// fresh reader object gives, whatever the same object read before. ALL sequences of up to three
+// reads from a menu of poses of two symbols of the reader's own symbology plus a blank page and
+// another symbology are made on ONE reader object.
+func runReaderHistories() {
+	type fam struct {
+		name  string
+		a, b  spec
+		alien spec
+	}
+	q := qrSpecs()
+	d := dmSpecs()
+	o := oneDSpecs([]int{20}, 30)
+	var fams []fam
+	fams = append(fams, fam{"qr", q[0], q[len(q)-1], d[0]}, fam{"dm", d[0], d[len(d)-1], q[0]})
+	seen := map[string]bool{}
+	for i := range o {
+		if seen[o[i].Sym] {
+			continue
+		}
+		seen[o[i].Sym] = true
+		other := o[i]
+		for k := i + 1; k < len(o); k++ {
+			if o[k].Sym == o[i].Sym && o[k].Content != o[i].Content {
+				other = o[k]
+				break
+			}
+		}
+		fams = append(fams, fam{o[i].Sym, o[i], other, q[0]})
+	}
+	depth := chk.Pick(3, 3)
+	chk.Range(fmt.Sprintf("reader-object histories: %d readers x ALL sequences of <=%d reads from an 8-image menu (two symbols upright / rotated 90 / rotated 180, a blank page, another symbology) x TRY_HARDER on ONE reader object: the last outcome == a fresh reader's outcome", len(fams), depth), len(fams)*2,
+		func(i int) string { return fmt.Sprint(fams[i/2].name, " tryHarder=", i%2 == 1) },
+		func(l *mc.Local, i int) {
+			f := fams[i/2]
+			th := i%2 == 1
+			var menu []*grid
+			var names []string
+			for _, sp := range []spec{f.a, f.b} {
+				_, base, err := drawFitting(sp)
+				if err != nil {
+					return
+				}
+				g := base.scalePad(2, 8)
+				menu = append(menu, g, g.rotate(90), g.rotate(180))
+				names = append(names, sp.keyName()+"/0", sp.keyName()+"/90", sp.keyName()+"/180")
+			}
+			menu = append(menu, newGrid(90, 60))
+			names = append(names, "blank")
+			if _, ab, err := drawFitting(f.alien); err == nil {
+				menu = append(menu, ab.scalePad(2, 8))
+				names = append(names, "other-symbology")
+			}
+			key := func(o outcome) string { return fmt.Sprintf("%s %q %v", o.kind, o.text, o.format) }
+			readWith := func(rd gozxing.Reader, g *grid) (o outcome) {
+				var res *gozxing.Result
+				var err error
+				pm, site := mc.Guard(func() {
+					bmp, e := gozxing.NewBinaryBitmapFromImage(g.gray())
+					if e != nil {
+						err = e
+						return
+					}
+					res, err = rd.Decode(bmp, hintsFor(th))
+				})
+				l.Count("evaluations", 1)
+				switch {
+				case pm != "":
+					o.kind, o.err, o.site = "panic", pm, site
+				case err != nil:
+					o.kind = errKind(err)
+				case res == nil:
+					o.kind = "other"
+				default:
+					o.kind, o.text, o.format = "ok", res.GetText(), res.GetBarcodeFormat()
+				}
+				return o
+			}
+			fresh := make([]string, len(menu))
+			for k, g := range menu {
+				fresh[k] = key(readWith(f.a.reader(), g))
+			}
+			var rec func(seq []int)
+			rec = func(seq []int) {
+				rd := f.a.reader()
+				var last outcome
+				for _, k := range seq {
+					last = readWith(rd, menu[k])
+				}
+				final := seq[len(seq)-1]
+				if got := key(last); got != fresh[final] {
+					var ns []string
+					for _, k := range seq {
+						ns = append(ns, names[k])
+					}
+					chk.Violation("C09/reader-history/"+f.name, fmt.Sprintf("%s reader, TRY_HARDER=%v, after reading %v on the same object: the last image gives %s, a fresh reader gives %s", f.name, th, ns, got, fresh[final]), map[string]interface{}{"reader": f.name, "sequence": ns, "tryHarder": th})
+				} else if len(seq) > 1 && last.kind == "ok" {
+					l.Distinct("nontrivial", fmt.Sprint("rhist", f.name, th, seq))
+				}
+				if len(seq) < depth {
+					for k := range menu {
+						rec(append(append([]int{}, seq...), k))
+					}
+				}
+			}
+			for k := range menu {
+				rec([]int{k})
+			}
+		})
+}
